@@ -1,4 +1,15 @@
 #!/bin/sh
-# full regression: every stored seed through tools/seedrecheck.sh with the checks listed in its meta.json (about 1.5 h); do not use /tmp/wt-port meanwhile
+# full regression: every stored seed through tools/seedrecheck.sh with the checks listed in its meta.json (about 2.5 h on one
+# shard). usage: tools/seedall.sh [shard-index shard-count]  — with shards, each uses its own scratch worktree /tmp/wt-shard<i>
+# (removed at the end); without, /tmp/wt-port (do not use it meanwhile).
 cd /verif
-for d in seeded/*/; do id=$(basename $d); checks=$(python3 -c "import json;print(' '.join(json.load(open('$d/meta.json'))['caught_by']))"); echo "## $id ($checks)"; tools/seedrecheck.sh $id - $checks 2>&1 | grep -E "VIOLATION|exit=|DOES NOT|^ok|^FAIL|--- FAIL|NO DEMO" | cut -c1-160 | head -8; done
+i=${1:-0}; n=${2:-1}
+[ "$n" -gt 1 ] && { WT=/tmp/wt-shard$i; export WT; }
+k=0
+for d in seeded/*/; do
+  k=$((k+1)); [ $((k % n)) -eq "$i" ] || continue
+  id=$(basename $d); checks=$(python3 -c "import json;print(' '.join(json.load(open('$d/meta.json'))['caught_by']))")
+  echo "## $id ($checks)"
+  tools/seedrecheck.sh $id - $checks 2>&1 | grep -E "VIOLATION|exit=|DOES NOT|^ok|^FAIL|--- FAIL|NO DEMO" | cut -c1-160 | head -8
+done
+[ "$n" -gt 1 ] && git -C /repo worktree remove --force $WT
